@@ -503,6 +503,20 @@ Proof.
     pose proof (Hlit (Z.to_N z)) as HL. rewrite Z2N.id in HL by lia. apply HL. exact Hs.
 Qed.
 
+Lemma agree_s : forall w r, (0 < w)%nat -> fits_s w r = true -> try_s w r = Ok (to_le_bytes_s w (cast_s w r)).
+Proof.
+  intros w r Hw Hf. unfold try_s. rewrite Hf. rewrite cast_s_id; [reflexivity | exact Hw |].
+  unfold fits_s in Hf. apply Bool.andb_true_iff in Hf. destruct Hf as [H1 H2].
+  apply Z.leb_le in H1. apply Z.ltb_lt in H2. split; assumption.
+Qed.
+
+Lemma agree_u : forall w r, fits_u w r = true -> try_u w r = Ok (to_le_bytes_u w (cast_u w r)).
+Proof.
+  intros w r Hf. unfold try_u. rewrite Hf. rewrite cast_u_id; [reflexivity|].
+  unfold fits_u in Hf. apply Bool.andb_true_iff in Hf. destruct Hf as [H1 H2].
+  apply Z.leb_le in H1. apply Z.ltb_lt in H2. split; assumption.
+Qed.
+
 (* the repair changes nothing for requests that were right before: on representable values both agree *)
 Theorem fix2_agrees_on_representable : forall k t r,
   requested k t = Some r -> representableb k r = true ->
@@ -510,31 +524,21 @@ Theorem fix2_agrees_on_representable : forall k t r,
 Proof.
   intros k t r Hreq Hr.
   destruct k; cbn [parse_set_value_fix2 parse_set_value requested] in *; try reflexivity.
-  (* signed *)
-  1-4,6: unfold parse_int_i128 in *; destruct (tx_int t) as [[m z]|]; try reflexivity;
-    cbn [option_map snd] in Hreq; injection Hreq as ->; destruct (in_i128 r); try reflexivity; cbn [bind];
-    unfold try_s; match goal with |- context [fits_s ?w r] =>
-      assert (Hf : fits_s w r = true) by exact Hr; rewrite Hf; rewrite cast_s_id;
-      [try reflexivity; symmetry; apply one_byte_s | lia |
-       unfold representableb in Hr; cbn [kind_class kind_size] in Hr; lia] end.
-  (* unsigned *)
-  2-5,7: unfold parse_int_u128 in *; destruct (tx_int t) as [[m z]|]; try reflexivity;
-    cbn [option_map snd] in Hreq; injection Hreq as ->; destruct m; try reflexivity;
-    destruct (in_u128 r); try reflexivity; cbn [bind];
-    unfold try_u; match goal with |- context [fits_u ?w r] =>
-      assert (Hf : fits_u w r = true) by exact Hr; rewrite Hf; rewrite cast_u_id;
-      [try reflexivity; rewrite <- (cast_u_id 1 r);
-        [symmetry; apply one_byte, cast_u_1_lt | unfold representableb in Hr; cbn [kind_class kind_size] in Hr; lia]
-      | unfold representableb in Hr; cbn [kind_class kind_size] in Hr; lia] end.
-  - reflexivity.
-  - reflexivity.
-  - (* char *)
-    destruct (tx_char t) as [cs|c|]; try reflexivity.
-    unfold parse_int_u128. destruct (tx_int t) as [[m z]|]; try reflexivity.
-    cbn [option_map snd] in Hreq. injection Hreq as ->. destruct m; try reflexivity.
-    destruct (in_u128 r); try reflexivity. cbn [bind].
-    assert (Hs : is_scalar_value r = true) by exact Hr. rewrite Hs.
-    rewrite cast_u_id; [reflexivity|]. unfold is_scalar_value in Hs. norm_consts. lia.
+  all: try (destruct (parse_int_i128 t) as [z| | |] eqn:Hp; cbn [bind]; try reflexivity;
+            apply parse_i128_val in Hp; destruct Hp as [Hv _]; rewrite Hv in Hreq;
+            assert (Hzr : z = r) by congruence; subst z;
+            rewrite agree_s; [ try rewrite one_byte_s; reflexivity | lia | exact Hr ]).
+  all: try (destruct (parse_int_u128 t) as [z| | |] eqn:Hp; cbn [bind]; try reflexivity;
+            apply parse_u128_val in Hp; destruct Hp as [Hv _]; rewrite Hv in Hreq;
+            assert (Hzr : z = r) by congruence; subst z;
+            rewrite agree_u; [ try rewrite <- (one_byte _ (cast_u_1_lt r)); reflexivity | exact Hr ]).
+  (* char *)
+  destruct (tx_char t) as [cs|c|] eqn:Ht; try reflexivity.
+  destruct (parse_int_u128 t) as [z| | |] eqn:Hp; cbn [bind]; try reflexivity.
+  apply parse_u128_val in Hp. destruct Hp as [Hv _]. rewrite Hv in Hreq.
+  assert (Hzr : z = r) by congruence. subst z.
+  assert (Hs : is_scalar_value r = true) by exact Hr. rewrite Hs.
+  rewrite cast_u_id; [reflexivity|]. unfold is_scalar_value in Hs. norm_consts. lia.
 Qed.
 
 Theorem fix2_length : forall k t bs, parse_set_value_fix2 k t = Ok bs -> length bs = kind_size k.
@@ -573,10 +577,56 @@ Proof.
   intros c v H Hs Hd. unfold setvalue_spec_ok in H. rewrite Hd, Hs in H.
   assert (Hz : forall a z, zopt_is a z = true -> a = Some z).
   { intros [x|] z Hx; cbn [zopt_is] in Hx; [apply Z.eqb_eq in Hx; now subst | discriminate Hx]. }
-  repeat (apply Bool.andb_true_iff in H; destruct H as [H ?]).
-  destruct (requested (c_kind c) (c_text c)) as [r|]; [|discriminate].
-  match goal with Hr : (representableb _ r && Z.eqb v r)%bool = true |- _ =>
-    apply Bool.andb_true_iff in Hr; destruct Hr as [Hr1 Hr2]; apply Z.eqb_eq in Hr2; subst r end.
-  match goal with Hp : Z.eqb (c_program c) v = true |- _ => apply Z.eqb_eq in Hp end.
-  repeat split; auto.
+  repeat match goal with
+         | H0 : (_ && _)%bool = true |- _ => apply Bool.andb_true_iff in H0; destruct H0
+         end.
+  destruct (requested (c_kind c) (c_text c)) as [r|]; [|congruence].
+  repeat match goal with
+         | H0 : (_ && _)%bool = true |- _ => apply Bool.andb_true_iff in H0; destruct H0
+         end.
+  repeat match goal with
+         | H0 : Z.eqb _ _ = true |- _ => apply Z.eqb_eq in H0
+         | H0 : zopt_is _ _ = true |- _ => apply Hz in H0
+         end.
+  subst r. repeat split; auto.
 Qed.
+
+(* ========================================================================================== *)
+(* 7. Together with write_bytes (Model/Mem.v, Proofs/MemProofs.v)                              *)
+(* ========================================================================================== *)
+From BS Require Model.Mem Proofs.MemProofs.
+
+Lemma write_value_exact : forall (n : nat) bs (m : Mem.mem) a,
+  length bs = n -> MemProofs.word_granular m -> a + N.of_nat n < 2 ^ 64 -> Mem.all_mapped m a n = true ->
+  exists m', Mem.write_bytes m a bs = Ok m' /\
+    (forall x, x < a \/ a + N.of_nat n <= x -> m' x = m x) /\
+    (forall i, (i < n)%nat -> m' (a + N.of_nat i) = Some (nth i bs 0)).
+Proof.
+  intros n bs m a Hl Hg Hb Hm. subst n.
+  destruct (MemProofs.write_bytes_exact m a bs Hg Hb Hm) as [m' [Hw Hs]].
+  exists m'. split; [exact Hw|]. split.
+  - intros x Hx. rewrite Hs. unfold Mem.spec_write.
+    destruct (N.leb_spec a x); destruct (N.ltb_spec x (a + N.of_nat (length bs))); cbn [andb]; try reflexivity; lia.
+  - intros i Hi. rewrite Hs. unfold Mem.spec_write.
+    destruct (N.leb_spec a (a + N.of_nat i)); [|lia].
+    destruct (N.ltb_spec (a + N.of_nat i) (a + N.of_nat (length bs))); [|lia]. cbn [andb].
+    replace (N.to_nat (a + N.of_nat i - a)) with i by lia. reflexivity.
+Qed.
+
+(* HEADLINE: an accepted setVariable / setExpression request on a mapped variable at address a changes the bytes
+   [a, a + size_of(type)) to the bytes computed from the text and no other byte of the process. *)
+Theorem set_value_touches_only_the_variable : forall k t bs (m : Mem.mem) a,
+  parse_set_value k t = Ok bs ->
+  MemProofs.word_granular m -> a + N.of_nat (kind_size k) < 2 ^ 64 -> Mem.all_mapped m a (kind_size k) = true ->
+  exists m', Mem.write_bytes m a bs = Ok m' /\
+    (forall x, x < a \/ a + N.of_nat (kind_size k) <= x -> m' x = m x) /\
+    (forall i, (i < kind_size k)%nat -> m' (a + N.of_nat i) = Some (nth i bs 0)).
+Proof. intros k t bs m a H. apply write_value_exact. now apply set_value_length in H. Qed.
+
+Theorem fix2_touches_only_the_variable : forall k t bs (m : Mem.mem) a,
+  parse_set_value_fix2 k t = Ok bs ->
+  MemProofs.word_granular m -> a + N.of_nat (kind_size k) < 2 ^ 64 -> Mem.all_mapped m a (kind_size k) = true ->
+  exists m', Mem.write_bytes m a bs = Ok m' /\
+    (forall x, x < a \/ a + N.of_nat (kind_size k) <= x -> m' x = m x) /\
+    (forall i, (i < kind_size k)%nat -> m' (a + N.of_nat i) = Some (nth i bs 0)).
+Proof. intros k t bs m a H. apply write_value_exact. now apply fix2_length in H. Qed.
